@@ -1,51 +1,808 @@
+// Package c02: everything the generator writes is a Go package that
+// compiles. The real generator runs in-process with a recording file system;
+// the Go compiler (go build / go test -run '^$' in a scratch module that
+// replaces ogen with the tree under test) is the monitor.
 package c02
 
 import (
+	"crypto/sha256"
+	"encoding/hex"
+	"encoding/json"
 	"fmt"
+	"go/parser"
+	"go/token"
 	"os"
 	"path/filepath"
+	"regexp"
+	"runtime"
+	"sort"
+	"strings"
+	"sync"
 	"time"
+
+	"github.com/go-faster/errors"
+
+	"github.com/ogen-go/ogen/gen"
 
 	"verifharness/internal/ev"
 	"verifharness/internal/genlab"
 )
 
+const pkgName = "api"
+
+// Slot is one hostile string put at one place of the base document.
+type Slot struct {
+	Place string   `json:"place"`
+	Class string   `json:"class"`
+	Strs  []string `json:"strings"` // one string, or a pair that should collide after normalisation
+}
+
+// Job is one generate+build job; it is what a replay file stores.
+type Job struct {
+	Seq         int     `json:"-"`
+	Kind        string  `json:"kind"` // corpus | matrix | hostile | multi | random | config
+	ID          string  `json:"id"`
+	Path        string  `json:"path,omitempty"` // corpus document (read from the tree under test)
+	Text        string  `json:"spec,omitempty"` // inline document
+	Feat        FeatSet `json:"feature_set"`
+	Slots       []Slot  `json:"slots,omitempty"`
+	Infer       bool    `json:"infer_types,omitempty"`
+	IgnoreAll   bool    `json:"ignore_not_implemented_all,omitempty"`
+	AllowRemote bool    `json:"allow_remote,omitempty"`
+	Convenient  string  `json:"convenient_errors,omitempty"`
+}
+
+func (j *Job) place() string {
+	if len(j.Slots) == 1 {
+		return j.Slots[0].Place + "/" + j.Slots[0].Class
+	}
+	return j.Kind
+}
+
+// outcome of the generation half of a job.
+type outcome struct {
+	stage    string
+	kind     string // ok | rejected | accepted-config-error | violation
+	vkind    string // violation kind
+	class    string // rejection class
+	err      string
+	panicAt  string
+	files    []string
+	digest   string
+	hasTests bool
+	pkg      string
+	specHash string
+}
+
+func (j *Job) generate() (*genlab.Result, string) {
+	it := genlab.Item{Path: j.Path, Text: j.Text, Infer: j.Infer, IgnoreAll: j.IgnoreAll, AllowRemote: j.AllowRemote, Convenient: j.Convenient, DefaultFeat: true}
+	data, o, err := it.Options()
+	if err != nil {
+		return &genlab.Result{Stage: "read", Err: err, FS: genlab.NewRecFS()}, ""
+	}
+	o.Generator.Features = j.Feat.options()
+	h := sha256.Sum256(data)
+	return genlab.Generate(data, o, pkgName, nil), hex.EncodeToString(h[:6])
+}
+
+var panicWords = []string{"panic", "runtime error", "goroutine ", "nil pointer", "index out of range"}
+
+// rejectClass classifies the diagnostic of a rejected document. bad is set
+// when the text is empty or reads like a recovered panic (the document's own
+// strings are removed first: a schema may be called "panic").
+func rejectClass(res *genlab.Result, own []string) (class string, bad bool) {
+	err := res.Err
+	msg := res.ErrText()
+	probe := strings.ToLower(msg)
+	for _, s := range own {
+		if s != "" {
+			probe = strings.ReplaceAll(probe, strings.ToLower(s), "")
+		}
+	}
+	if strings.TrimSpace(msg) == "" {
+		return "empty-diagnostic", true
+	}
+	for _, w := range panicWords {
+		if strings.Contains(probe, w) {
+			return "panic-text", true
+		}
+	}
+	var ni *gen.ErrNotImplemented
+	var ct *gen.ErrUnsupportedContentTypes
+	var di *gen.ErrFieldsDiscriminatorInference
+	var br *gen.ErrBuildRouter
+	var ps *gen.ErrParseSpec
+	switch {
+	case errors.As(err, &ni):
+		return "not-implemented", false
+	case errors.As(err, &ct):
+		return "not-implemented:content-type", false
+	case errors.As(err, &di):
+		return "not-implemented:discriminator-inference", false
+	case errors.As(err, &br):
+		return "conflict:router", false
+	case strings.Contains(msg, "conflict"):
+		return "conflict:name", false
+	case strings.Contains(msg, "can't generate valid name"), strings.Contains(msg, "can't generate name"):
+		return "spec-level:unnameable", false
+	case res.Stage == "parse":
+		return "spec-level:document", false
+	case errors.As(err, &ps):
+		return "spec-level:parse", false
+	case res.Stage == "read":
+		return "spec-level:read", false
+	}
+	return "spec-level:ir", false
+}
+
+func judgeGeneration(j *Job, res *genlab.Result) outcome {
+	o := outcome{stage: res.Stage, err: res.ErrText(), panicAt: res.PanicAt}
+	var own []string
+	for _, s := range j.Slots {
+		own = append(own, s.Strs...)
+	}
+	switch {
+	case res.Panic != "":
+		o.kind, o.vkind = "violation", "panic-"+res.Stage
+	case res.Stage == "ok":
+		o.kind = "ok"
+		for n, b := range res.FS.Files {
+			o.files = append(o.files, n)
+			if strings.HasSuffix(n, "_test.go") {
+				o.hasTests = true
+			}
+			// what is written is one package: every file carries the requested package clause
+			f, err := parser.ParseFile(token.NewFileSet(), n, b, parser.PackageClauseOnly)
+			if err != nil || f == nil || f.Name.Name != pkgName || !strings.HasSuffix(n, ".go") {
+				o.kind, o.vkind = "violation", "not-one-package"
+				o.err = fmt.Sprintf("file %s: package clause is not %q (parse error: %v)", n, pkgName, err)
+			}
+		}
+		sort.Strings(o.files)
+		o.digest = res.Digest()
+		if len(o.files) == 0 {
+			o.kind, o.vkind = "violation", "nothing-written"
+		}
+	case res.Stage == "write":
+		var gf *gen.ErrGoFormat
+		switch {
+		case errors.As(res.Err, &gf):
+			o.kind, o.vkind = "violation", "goformat"
+		case strings.Contains(o.err, "template \"") && strings.Contains(o.err, "execute"):
+			o.kind, o.vkind = "violation", "template-exec"
+		case j.Feat.Unknown != "" && strings.Contains(o.err, "unknown feature"):
+			o.kind, o.class = "accepted-config-error", "config:unknown-feature"
+		default:
+			o.kind, o.vkind = "violation", "write-failed"
+		}
+	default:
+		cls, bad := rejectClass(res, own)
+		o.class = cls
+		if bad {
+			o.kind, o.vkind = "violation", "bad-rejection-"+cls
+		} else {
+			o.kind = "rejected"
+		}
+	}
+	return o
+}
+
+// ---------------------------------------------------------------- compiler
+
+type builder struct {
+	mod      *genlab.Module
+	env      []string
+	cacheDir string
+	keep     map[string]bool
+	wall     time.Duration
+}
+
+var (
+	hdrRe   = regexp.MustCompile(`^# scratch/(p\d{5})(?: \[.*\])?$`)
+	failRe  = regexp.MustCompile(`^FAIL\s+scratch/(p\d{5})(?:\s+\[(build failed|setup failed)\]|\s+[\d.]+s)?\s*$`)
+	okRe    = regexp.MustCompile(`^(ok|\?)\s+\s*scratch/(p\d{5})\s`)
+	pfxRe   = regexp.MustCompile(`^(?:\./)?(p\d{5})/`)
+	anyPkg  = regexp.MustCompile(`\b(p\d{5})\b`)
+	posRe   = regexp.MustCompile(`^\S+\.go:\d+:\d+: `)
+	identRe = regexp.MustCompile(`^(?:undefined: |other declaration of )?([A-Za-z_][A-Za-z0-9_.]*) `)
+)
+
+// attribute maps the output of a failed go command to packages.
+func attribute(out string) (bad map[string][]string, initFail map[string]bool, misc []string) {
+	bad = map[string][]string{}
+	initFail = map[string]bool{}
+	cur := ""
+	var pending []string
+	for _, l := range strings.Split(out, "\n") {
+		if strings.TrimSpace(l) == "" || l == "FAIL" {
+			continue
+		}
+		if m := hdrRe.FindStringSubmatch(l); m != nil {
+			cur = m[1]
+			if _, ok := bad[cur]; !ok {
+				bad[cur] = nil
+			}
+			continue
+		}
+		if m := failRe.FindStringSubmatch(l); m != nil {
+			if m[2] == "" {
+				// the test binary was built but did not exit cleanly (init panic)
+				initFail[m[1]] = true
+				bad[m[1]] = append(bad[m[1]], pending...)
+			} else if _, ok := bad[m[1]]; !ok {
+				bad[m[1]] = append(bad[m[1]], pending...)
+			}
+			pending = nil
+			cur = ""
+			continue
+		}
+		if okRe.MatchString(l) {
+			cur = ""
+			pending = nil
+			continue
+		}
+		if m := pfxRe.FindStringSubmatch(l); m != nil {
+			cur = m[1]
+			bad[cur] = append(bad[cur], l)
+			continue
+		}
+		if cur != "" && (strings.HasPrefix(l, "\t") || strings.HasPrefix(l, " ")) {
+			bad[cur] = append(bad[cur], l)
+			continue
+		}
+		if m := anyPkg.FindStringSubmatch(l); m != nil && cur == "" {
+			bad[m[1]] = append(bad[m[1]], l)
+			continue
+		}
+		if cur != "" {
+			bad[cur] = append(bad[cur], l)
+			continue
+		}
+		pending = append(pending, l)
+	}
+	misc = pending
+	return
+}
+
+// compile runs one go command over pkgs; the packages named in the
+// diagnostics are failing, the rest is rebuilt without them until the
+// command succeeds, so that every package not reported is known to compile.
+func (b *builder) compile(test bool, pkgs []string) (fail map[string]string, initFail map[string]bool, err error) {
+	fail = map[string]string{}
+	initFail = map[string]bool{}
+	remaining := append([]string(nil), pkgs...)
+	t0 := time.Now()
+	defer func() { b.wall += time.Since(t0) }()
+	for round := 0; len(remaining) > 0; round++ {
+		var args []string
+		if test {
+			args = []string{"test", "-vet=off", "-count=1", "-run", "^$"}
+		} else {
+			args = []string{"build"}
+		}
+		for _, p := range remaining {
+			args = append(args, "./"+p)
+		}
+		out, e := genlab.RunIn(b.mod.Dir, 120*time.Minute, b.env, "go", args...)
+		if e == nil {
+			return fail, initFail, nil
+		}
+		if strings.Contains(e.Error(), "watchdog") {
+			return nil, nil, e
+		}
+		bad, ifail, misc := attribute(out)
+		if len(bad) == 0 || round > 25 {
+			return nil, nil, fmt.Errorf("go %s failed (%v) and its output names no generated package:\n%s", args[0], e, tail(out, 4000))
+		}
+		in := map[string]bool{}
+		for _, p := range remaining {
+			in[p] = true
+		}
+		progress := false
+		for p, lines := range bad {
+			if !in[p] {
+				continue
+			}
+			progress = true
+			d := strings.Join(lines, "\n")
+			if d == "" {
+				d = strings.Join(misc, "\n")
+			}
+			fail[p] = d
+			if ifail[p] {
+				initFail[p] = true
+			}
+		}
+		if !progress {
+			return nil, nil, fmt.Errorf("go %s failed (%v) naming only packages outside the batch:\n%s", args[0], e, tail(out, 4000))
+		}
+		var next []string
+		for _, p := range remaining {
+			if _, ok := fail[p]; !ok {
+				next = append(next, p)
+			}
+		}
+		remaining = next
+	}
+	return fail, initFail, nil
+}
+
+func (b *builder) snapshot() {
+	b.keep = map[string]bool{}
+	filepath.Walk(b.cacheDir, func(p string, info os.FileInfo, err error) error {
+		if err == nil && !info.IsDir() {
+			b.keep[p] = true
+		}
+		return nil
+	})
+}
+
+// trim removes from the private build cache what later batches added, so a
+// thorough run does not leave gigabytes of one-off archives behind.
+func (b *builder) trim() {
+	if b.keep == nil {
+		return
+	}
+	filepath.Walk(b.cacheDir, func(p string, info os.FileInfo, err error) error {
+		if err == nil && !info.IsDir() && !b.keep[p] {
+			os.Remove(p)
+		}
+		return nil
+	})
+}
+
+var frameworkIdents = map[string]bool{}
+
+func init() {
+	for _, s := range frameworkNames {
+		frameworkIdents[s] = true
+	}
+}
+
+// diagClass names the kind of the first compiler diagnostic.
+func diagClass(diag string) string {
+	first := ""
+	for _, l := range strings.Split(diag, "\n") {
+		if posRe.MatchString(strings.TrimPrefix(l, "./")) || strings.Contains(l, ".go:") {
+			first = l
+			break
+		}
+	}
+	if first == "" {
+		first = diag
+	}
+	msg := first
+	if i := strings.Index(msg, ".go:"); i >= 0 {
+		rest := msg[i+4:]
+		if k := strings.Index(rest, ": "); k >= 0 {
+			msg = rest[k+2:]
+		}
+	}
+	ident := ""
+	if m := identRe.FindStringSubmatch(msg); m != nil {
+		ident = m[1]
+	}
+	if strings.HasPrefix(msg, "undefined: ") {
+		ident = strings.TrimSpace(strings.TrimPrefix(msg, "undefined: "))
+	}
+	idc := func() string {
+		base := ident
+		if i := strings.LastIndex(base, "."); i >= 0 {
+			base = base[i+1:]
+		}
+		if frameworkIdents[ident] || frameworkIdents[base] {
+			return "/framework-identifier"
+		}
+		return "/generated-name"
+	}
+	switch {
+	case strings.Contains(msg, "redeclared in this block"):
+		return "redeclared" + idc()
+	case strings.Contains(msg, "already declared"), strings.Contains(msg, "field and method with the same name"):
+		return "member-redeclared" + idc()
+	case strings.HasPrefix(msg, "undefined: "), strings.Contains(msg, " undefined ("):
+		return "undefined"
+	case strings.Contains(msg, "declared and not used"):
+		return "unused-variable"
+	case strings.Contains(msg, "imported and not used"):
+		return "unused-import"
+	case strings.Contains(msg, "syntax error"), strings.HasPrefix(msg, "expected "):
+		return "syntax"
+	case strings.Contains(msg, "duplicate case"):
+		return "duplicate-case"
+	case strings.Contains(msg, "duplicate field"), strings.Contains(msg, "duplicate key"), strings.Contains(msg, "duplicate method"), strings.Contains(msg, "duplicate index"):
+		return "duplicate-member"
+	case strings.Contains(msg, "cannot use"), strings.Contains(msg, "mismatched types"), strings.Contains(msg, "cannot convert"):
+		return "type-mismatch"
+	case strings.Contains(msg, "missing return"):
+		return "missing-return"
+	case strings.Contains(msg, "invalid recursive type"):
+		return "invalid-recursive-type"
+	case strings.Contains(msg, "overflows"), strings.Contains(msg, "out of range"):
+		return "constant-overflow"
+	case strings.Contains(msg, "is not a type"), strings.Contains(msg, "is not an expression"), strings.Contains(msg, "not a type"):
+		return "name-kind-confusion"
+	case strings.Contains(msg, "invalid operation"):
+		return "invalid-operation"
+	case strings.Contains(msg, "newline in string"), strings.Contains(msg, "invalid character"), strings.Contains(msg, "illegal"), strings.Contains(msg, "not terminated"), strings.Contains(msg, "unknown escape"):
+		return "lexical"
+	case strings.Contains(msg, "has no field or method"), strings.Contains(msg, "missing method"), strings.Contains(msg, "does not implement"):
+		return "missing-member"
+	case strings.Contains(msg, "too many"), strings.Contains(msg, "not enough"), strings.Contains(msg, "assignment mismatch"):
+		return "arity"
+	case strings.Contains(msg, "found packages"):
+		return "several-packages"
+	case strings.Contains(msg, "panic:"):
+		return "panic-at-init"
+	}
+	return "other"
+}
+
+// ---------------------------------------------------------------- main
+
+type witness struct {
+	Job         Job      `json:"job"`
+	SpecHash    string   `json:"spec_sha256_prefix"`
+	Stage       string   `json:"generation_stage"`
+	Outcome     string   `json:"outcome"`
+	Error       string   `json:"generator_error,omitempty"`
+	PanicAt     string   `json:"panic_at,omitempty"`
+	Files       []string `json:"files_written,omitempty"`
+	Command     string   `json:"failing_command,omitempty"`
+	Diagnostics string   `json:"compiler_diagnostics,omitempty"`
+	DiagClass   string   `json:"diagnostic_class,omitempty"`
+}
+
+type runner struct {
+	r     *ev.Run
+	mod   *genlab.Module
+	b     *builder
+	mu    sync.Mutex
+	rej   map[string]map[string]int // place-or-kind -> rejection class -> n
+	out   map[string]map[string]int // place-or-kind -> outcome -> n
+	rejEx map[string]string         // rejection class -> example text
+	// violations of single-place hostile jobs, for attributing multi-place ones
+	singleViol map[string]string // vkind|place/class -> signature
+	verdicts   map[string]verdict
+	genWall    time.Duration
+	sampled    int
+}
+
+type verdict struct {
+	ok        bool
+	cmd, diag string
+	initFail  bool
+}
+
+func (x *runner) tally(j *Job, what string) {
+	x.mu.Lock()
+	defer x.mu.Unlock()
+	keys := []string{"kind:" + j.Kind}
+	for _, s := range j.Slots {
+		keys = append(keys, s.Place)
+	}
+	for _, k := range keys {
+		if x.out[k] == nil {
+			x.out[k] = map[string]int{}
+		}
+		x.out[k][what]++
+	}
+}
+
+func (x *runner) signature(j *Job, vkind, dclass string) string {
+	switch j.Kind {
+	case "hostile":
+		return vkind + ":" + j.place()
+	case "multi":
+		x.mu.Lock()
+		defer x.mu.Unlock()
+		for _, s := range j.Slots {
+			if sig, ok := x.singleViol[vkind+"|"+s.Place+"/"+s.Class]; ok {
+				return sig
+			}
+		}
+		var ps []string
+		for _, s := range j.Slots {
+			ps = append(ps, s.Place+"/"+s.Class)
+		}
+		sort.Strings(ps)
+		return vkind + ":multi-place/" + strings.Join(ps, "+") + suffix(dclass)
+	}
+	return vkind + ":" + j.Kind + suffix(dclass)
+}
+
+func suffix(s string) string {
+	if s == "" {
+		return ""
+	}
+	return "/" + s
+}
+
+func (x *runner) violate(j *Job, o outcome, vkind, cmd, diag string) {
+	dclass := ""
+	if diag != "" {
+		dclass = diagClass(diag)
+	}
+	sig := x.signature(j, vkind, dclass)
+	if j.Kind == "hostile" && len(j.Slots) == 1 {
+		x.mu.Lock()
+		x.singleViol[vkind+"|"+j.Slots[0].Place+"/"+j.Slots[0].Class] = sig
+		x.mu.Unlock()
+	}
+	w := witness{Job: *j, SpecHash: o.specHash, Stage: o.stage, Outcome: vkind, Error: clip(o.err, 3000), PanicAt: o.panicAt, Files: o.files, Command: cmd, Diagnostics: clip(diag, 3000), DiagClass: dclass}
+	if j.Path != "" {
+		w.Job.Text = ""
+	}
+	what := o.err
+	if diag != "" {
+		what = firstLines(diag, 2)
+	}
+	sum := fmt.Sprintf("%s [%s] features=%s: %s: %s", j.ID, describeSlots(j.Slots), j.Feat.key(), vkind, clip(what, 400))
+	x.r.Violate(sig, sum, w)
+	x.tally(j, "violation:"+vkind)
+}
+
+func describeSlots(ss []Slot) string {
+	var out []string
+	for _, s := range ss {
+		out = append(out, fmt.Sprintf("%s=%q", s.Place, s.Strs))
+	}
+	return strings.Join(out, " ")
+}
+
+func clip(s string, n int) string {
+	if len(s) > n {
+		return s[:n] + "…"
+	}
+	return s
+}
+
+func firstLines(s string, n int) string {
+	ls := strings.Split(strings.TrimSpace(s), "\n")
+	if len(ls) > n {
+		ls = ls[:n]
+	}
+	return strings.Join(ls, " | ")
+}
+
+func tail(s string, n int) string {
+	if len(s) > n {
+		return s[len(s)-n:]
+	}
+	return s
+}
+
+// runBatch generates all jobs, writes the accepted ones as packages and lets
+// the compiler decide.
+func (x *runner) runBatch(jobs []*Job, verbose bool) error {
+	r := x.r
+	outs := make([]outcome, len(jobs))
+	t0 := time.Now()
+	ev.Parallel(len(jobs), runtime.NumCPU(), func(i int) {
+		j := jobs[i]
+		res, h := j.generate()
+		o := judgeGeneration(j, res)
+		o.specHash = h
+		if o.kind == "ok" {
+			o.pkg = fmt.Sprintf("p%05d", j.Seq)
+			x.mu.Lock()
+			_, seen := x.verdicts[o.digest]
+			x.mu.Unlock()
+			if !seen {
+				if _, err := x.mod.WritePackage(o.pkg, res.FS.Files); err != nil {
+					o.kind, o.vkind, o.err = "violation", "harness-write", err.Error()
+				}
+			}
+		}
+		outs[i] = o
+		r.Case(h + "|" + j.Feat.key())
+		if verbose {
+			fmt.Printf("generation: stage=%s outcome=%s class=%s files=%d\n", o.stage, o.kind, o.class+o.vkind, len(o.files))
+			if o.err != "" {
+				fmt.Printf("generator error: %s\n", o.err)
+			}
+		}
+	})
+	x.genWall += time.Since(t0)
+	// goimports failures leave <file>.dump in the working directory
+	dumps, _ := filepath.Glob(filepath.Join(x.mod.Dir, "*.dump"))
+	for _, d := range dumps {
+		os.Remove(d)
+	}
+	r.Count("dump_files_left_in_cwd_by_generator", len(dumps))
+
+	// decide the generation half
+	var toBuild, toTest []string
+	owner := map[string]string{} // digest -> pkg that is built for it
+	byPkg := map[string]int{}
+	for i, j := range jobs {
+		o := outs[i]
+		switch o.kind {
+		case "rejected", "accepted-config-error":
+			r.Count("generation_rejected", 1)
+			x.tally(j, "rejected:"+o.class)
+			x.mu.Lock()
+			k := j.place()
+			if j.Kind == "hostile" {
+				k = j.Slots[0].Place
+			}
+			if x.rej[k] == nil {
+				x.rej[k] = map[string]int{}
+			}
+			x.rej[k][o.class]++
+			if _, ok := x.rejEx[o.class]; !ok {
+				x.rejEx[o.class] = clip(j.ID+": "+o.err, 300)
+			}
+			x.mu.Unlock()
+		case "violation":
+			if o.vkind == "harness-write" {
+				return fmt.Errorf("cannot write package: %s", o.err)
+			}
+			x.violate(j, o, o.vkind, "", "")
+		case "ok":
+			r.Count("generation_succeeded", 1)
+			if _, done := x.verdicts[o.digest]; done {
+				continue
+			}
+			if _, dup := owner[o.digest]; dup {
+				continue
+			}
+			owner[o.digest] = o.pkg
+			byPkg[o.pkg] = i
+			toBuild = append(toBuild, o.pkg)
+			if o.hasTests {
+				toTest = append(toTest, o.pkg)
+			}
+		}
+	}
+	// the compiler
+	fail, _, err := x.b.compile(false, toBuild)
+	if err != nil {
+		return err
+	}
+	var testable []string
+	for _, p := range toTest {
+		if _, bad := fail[p]; !bad {
+			testable = append(testable, p)
+		}
+	}
+	tfail, initFail, err := x.b.compile(true, testable)
+	if err != nil {
+		return err
+	}
+	for _, p := range toBuild {
+		o := outs[byPkg[p]]
+		v := verdict{ok: true}
+		if d, bad := fail[p]; bad {
+			v = verdict{cmd: "go build ./" + p, diag: d}
+		} else if d, bad := tfail[p]; bad {
+			v = verdict{cmd: "go test -vet=off -count=1 -run '^$' ./" + p, diag: d, initFail: initFail[p]}
+		}
+		x.verdicts[o.digest] = v
+		r.Count("packages_compiled", 1)
+		if o.hasTests && v.ok {
+			r.Count("packages_with_test_files_compiled", 1)
+		}
+	}
+	for i, j := range jobs {
+		o := outs[i]
+		if o.kind != "ok" {
+			continue
+		}
+		v := x.verdicts[o.digest]
+		if owner[o.digest] != o.pkg {
+			r.Count("builds_shared_with_byte_identical_output", 1)
+		}
+		if verbose {
+			if v.ok {
+				fmt.Printf("compiler: package builds (test files: %v)\n", o.hasTests)
+			} else {
+				fmt.Printf("compiler: %s failed:\n%s\n", v.cmd, v.diag)
+			}
+		}
+		if v.ok {
+			x.tally(j, "compiles")
+			if x.sampled < 8 && (i%7 == 0) {
+				x.sampled++
+				r.Sample(map[string]any{"job": j.ID, "features": j.Feat.key(), "slots": j.Slots, "files_written": o.files, "verdict": "builds; test files compile"})
+			}
+			continue
+		}
+		vk := "not-compiling"
+		if strings.HasPrefix(v.cmd, "go test") {
+			vk = "tests-not-compiling"
+			if v.initFail {
+				vk = "test-binary-fails-at-start"
+			}
+		}
+		x.violate(j, o, vk, v.cmd, v.diag)
+	}
+	for _, o := range outs {
+		if o.pkg != "" {
+			os.RemoveAll(filepath.Join(x.mod.Dir, o.pkg))
+		}
+	}
+	return nil
+}
+
 func Main(args []string) int {
+	r := ev.New("C02", "exploration")
+	var replay *witness
+	if len(args) >= 2 && args[0] == "--replay" {
+		r.Replay = args[1]
+		replay = &witness{}
+		if err := ev.ReadReplay(args[1], replay); err != nil {
+			fmt.Println("ERROR", err)
+			return 2
+		}
+	}
 	mod, cleanup, err := genlab.EnterScratchModule("c02")
 	if err != nil {
 		fmt.Println("ERROR", err)
 		return 2
 	}
 	defer cleanup()
-	all := []string{"paths/client", "paths/server", "webhooks/client", "webhooks/server", "client/security/reentrant", "client/request/options", "client/request/validation", "server/response/validation", "ogen/otel", "ogen/unimplemented", "debug/example_tests"}
-	var pk []string
-	t0 := time.Now()
-	for i := 0; i < 16; i++ {
-		it := genlab.CorpusItem(filepath.Join(ev.RepoDir(), "_testdata", args[0]))
-		it.DefaultFeat = false
-		it.Features = all
-		res := it.Run(nil)
-		if !res.OK() {
-			fmt.Println(res.Stage, res.ErrText())
-			return 1
+	cacheDir, cleanCache := ev.Scratch("c02cache")
+	defer cleanCache()
+	x := &runner{r: r, mod: mod, rej: map[string]map[string]int{}, out: map[string]map[string]int{}, rejEx: map[string]string{}, singleViol: map[string]string{}, verdicts: map[string]verdict{}}
+	x.b = &builder{mod: mod, cacheDir: cacheDir, env: genlab.GoEnv("GOCACHE=" + cacheDir)}
+
+	if replay != nil {
+		j := replay.Job
+		j.Seq = 1
+		if j.Feat.Features == nil {
+			j.Feat.Features = []string{}
 		}
-		n := fmt.Sprintf("p%04d", i)
-		mod.WritePackage(n, res.FS.Files)
-		pk = append(pk, "./"+n)
+		fmt.Printf("replay: job %s kind=%s features=%s slots: %s\n", j.ID, j.Kind, j.Feat.key(), describeSlots(j.Slots))
+		if err := x.runBatch([]*Job{&j}, true); err != nil {
+			fmt.Println("ERROR", err)
+			return 2
+		}
+		return r.Finish("replay of one stored job", 0, false)
 	}
-	fmt.Println("gen", time.Since(t0))
-	env := genlab.GoEnv()
-	if len(args) > 1 {
-		env = genlab.GoEnv("GOCACHE=" + filepath.Join(mod.Dir, "gocache"))
+
+	jobs, info, err := workload(r)
+	if err != nil {
+		fmt.Println("ERROR", err)
+		return 2
 	}
-	t0 = time.Now()
-	out, err := genlab.RunIn(mod.Dir, time.Hour, env, "go", append([]string{"build"}, pk...)...)
-	fmt.Println("build", time.Since(t0), err, out)
-	t0 = time.Now()
-	out, err = genlab.RunIn(mod.Dir, time.Hour, env, "go", append([]string{"test", "-vet=off", "-count=1", "-run", "^$"}, pk...)...)
-	fmt.Println("test", time.Since(t0), err, out)
-	out, _ = genlab.RunIn(mod.Dir, time.Hour, env, "du", "-sh", filepath.Join(mod.Dir, "gocache"), filepath.Join(mod.Dir, "p0000"))
-	fmt.Println(out)
-	os.Stdout.Sync()
-	return 0
+	for i, j := range jobs {
+		j.Seq = i + 1
+	}
+	batch := 400
+	for lo := 0; lo < len(jobs); lo += batch {
+		hi := lo + batch
+		if hi > len(jobs) {
+			hi = len(jobs)
+		}
+		if err := x.runBatch(jobs[lo:hi], false); err != nil {
+			fmt.Println("ERROR", err)
+			return 2
+		}
+		if lo == 0 {
+			x.b.snapshot()
+		} else {
+			x.b.trim()
+		}
+	}
+	kinds := map[string]int{}
+	for _, j := range jobs {
+		kinds[j.Kind]++
+	}
+	r.Set("jobs_by_kind", kinds)
+	r.Set("jobs_total", len(jobs))
+	for k, v := range info {
+		r.Set(k, v)
+	}
+	r.Set("rejections", x.rej)
+	r.Set("rejection_examples", x.rejEx)
+	r.Set("outcomes_by_place", x.out)
+	r.Set("wall_generation_s", int(x.genWall.Seconds()))
+	r.Set("wall_compiler_s", int(x.b.wall.Seconds()))
+	r.Assume("the compiler is the oracle: 'compiles' means go build and go test -vet=off -run '^$' of the installed toolchain succeed inside a scratch module that replaces github.com/ogen-go/ogen with the tree under test and uses the dependency versions of its go.sum")
+	r.Assume("jobs whose written files are byte-identical to those of an earlier job share that job's compiler verdict (the verdict is a function of the files)")
+	r.Assume("whether rejecting a document was necessary is not judged; a rejection only has to carry a non-empty diagnostic that does not read like a recovered panic")
+	js, _ := json.Marshal(info["feature_sets_pairwise"])
+	_ = js
+	return r.Finish("generate+build jobs: corpus documents x feature sets (pairwise covering array over gen.AllFeatures, all-on, all-off, client/server/webhooks-only, defaults; all 2^11 subsets on three small documents in thorough), a base document with one hostile string at one of the places where document text becomes Go text (and PRNG multi-place combinations), PRNG documents over the feature grammar. Generation success must imply go build and go test -run '^$' success; WriteSource must not fail with ErrGoFormat/template errors; rejections must carry a diagnostic. distinct = (document hash, feature set)", r.N(200, 2500), false)
 }
